@@ -211,18 +211,19 @@ let sort_top (s : string) : string =
 
 (* The property evaluated on the IMPLEMENTATION's outputs for (t, c):
    wf -> the bytes are the wire encoding and they decode to pad t c.   None = holds. *)
-let property_failure t c (impl_ser : string) (impl_deser : string) : string option =
+type failure = Refused | NotEncoding | Decode
+let property_failure t c (impl_ser : string) (impl_deser : string) : (failure * string) option =
   if not (wf_cell t c) then None
   else match strip_ok impl_ser with
-    | None -> Some ("a value of the type was refused: " ^ impl_ser)
+    | None -> Some (Refused, "a value of the type was refused: " ^ impl_ser)
     | Some hx ->
       let b = bytes_of_hexstr hx in
       if not (conforms_ok t c b) then
-        Some ("bytes are not the wire encoding; spec=" ^
+        Some (NotEncoding, "bytes are not the wire encoding; spec=" ^
               (match enc_cell_spec t c with Some e -> hb e | None -> "none(no encoding exists)"))
       else
         let want = "ok:" ^ s_cell (pad_cell t c) in
-        if impl_deser <> want then Some ("decodes to " ^ impl_deser ^ " instead of " ^ want)
+        if impl_deser <> want then Some (Decode, "decodes to " ^ impl_deser ^ " instead of " ^ want)
         else None
 
 let verdict_rt ~(unordered : bool) t c impl_ser impl_deser =
@@ -246,37 +247,79 @@ let verdict_rt ~(unordered : bool) t c impl_ser impl_deser =
     | Err _ -> "-" in
   let norm s = if unordered then sort_top s else s in
   let agrees = order_ok && m_ser_s = impl_ser && norm m_deser_s = norm impl_deser in
-  let tag () = match c with
-    | CVal v -> (match known_class_of t v with Some k -> " class=" ^ class_tag k | None -> "")
-    | _ -> "" in
+  (* The known-finding tag is attached ONLY when the implementation shows exactly the behaviour the
+     model has for this input: impl = model on bytes and on the decoded value; for a vector hole
+     the finding is the WRITER's (no encoding exists, yet bytes are produced), so equality of the
+     bytes with the model's suffices there (a typed decoder may read the malformed bytes
+     differently from the dynamic one).  Any other failure on an input that merely contains a
+     known-class sub-value is a plain viol. *)
+  let agrees_ser = order_ok && m_ser_s = impl_ser in
+  let cls = match c with CVal v -> known_class_of t v | _ -> None in
   let impl_deser_n = if unordered && norm m_deser_s = norm impl_deser then m_deser_s else impl_deser in
   match property_failure t c impl_ser impl_deser_n with
-  | None -> if agrees then "ok" else "diff model=" ^ m_ser_s ^ " " ^ m_deser_s
-  | Some why ->
-    if agrees then "viol" ^ tag () ^ " " ^ why
-    else "viol" ^ tag () ^ " " ^ why ^ " ; model=" ^ m_ser_s ^ " " ^ m_deser_s
+  | None ->
+    if not agrees then "diff model=" ^ m_ser_s ^ " " ^ m_deser_s
+    else
+      (* outside the quantifier: not a value of the type, accepted by the writer, not read back *)
+      (match strip_ok impl_ser with
+       | Some _ when not (wf_cell t c) && impl_deser_n <> "ok:" ^ s_cell (pad_cell t c) -> "ok obs=accepted-not-of-type-not-read-back"
+       | _ -> "ok")
+  | Some (kind, why) ->
+    (match cls with
+     | Some k when agrees || (kind = NotEncoding && agrees_ser && k = KA_vector_null_element) ->
+       "viol class=" ^ class_tag k ^ " " ^ why
+     | _ -> "viol " ^ why ^ " ; model=" ^ m_ser_s ^ " " ^ m_deser_s)
+
+let starts_with s p = String.length s >= String.length p && String.sub s 0 (String.length p) = p
+let contains s p =
+  let n = String.length p in
+  let rec go i = i + n <= String.length s && (String.sub s i n = p || go (i + 1)) in go 0
 
 let verdict case impl =
   match case, impl with
+  | _, ("error" :: rest) -> "error harness " ^ String.concat " " rest      (* the runner could not run the case *)
   | ["R"; ts; cs], [iser; ideser] ->
     verdict_rt ~unordered:false (type_of_string ts) (cell_of_string cs) iser ideser
   | ["T"; carrier; ts; cs], [iser; ideser] ->
-    let unordered = String.length carrier >= 4 && String.sub carrier 0 4 = "Hash" in
-    verdict_rt ~unordered (type_of_string ts) (cell_of_string cs) iser ideser
+    let unordered = starts_with carrier "Hash" in
+    (* only the top level of a printed collection is order-normalised *)
+    if contains carrier "Hash" && not unordered then "error nested-hash-carrier-not-supported"
+    else verdict_rt ~unordered (type_of_string ts) (cell_of_string cs) iser ideser
   | [("V" | "Q") as kind; _carrier; ets; dims; cs], [iser; ideser] ->
     let e = type_of_string ets and cells = cells_of_string cs in
-    let m = if kind = "V" then ser_vector_cells e (n_of_hex dims) cells else ser_sequence_cells e cells in
-    let m_s = s_ser m in
-    (* typed decode: the carrier is Vec<Option<T>> / Vec<MaybeUnset<T>>: the property is that the
-       decoded cells are the bound ones (unset reads back as null) *)
-    let want = "ok:" ^ s_cells (List.map (fun c -> pad_cell e c) cells) in
-    let prop_ok = (match strip_ok iser with None -> true | Some _ -> ideser = want) in
-    if m_s <> iser then
-      (if prop_ok then "diff model=" ^ m_s else "viol decodes to " ^ ideser ^ " instead of " ^ want ^ " ; model=" ^ m_s)
-    else if prop_ok then "ok"
-    else if kind = "V" && cells_hole cells then
-      "viol class=vector-null-element decodes to " ^ ideser ^ " instead of " ^ want
-    else "viol decodes to " ^ ideser ^ " instead of " ^ want
+    let vals = List.filter_map (function CVal v -> Some v | _ -> None) cells in
+    if kind = "V" && List.length vals = List.length cells && not (cells_hole cells) then
+      (* no null / unset / Empty element: exactly the dynamic vector value (C01_vector_cells_vals), so the
+         full property (conformance, decode = pad, totality) is evaluated as for an R case *)
+      let ideser' = if starts_with ideser "ok:cells(" then "ok:vector(" ^ String.sub ideser 9 (String.length ideser - 9) else ideser in
+      verdict_rt ~unordered:false (TVector (e, n_of_hex dims)) (CVal (CVector vals)) iser ideser'
+    else begin
+      let m = if kind = "V" then ser_vector_cells e (n_of_hex dims) cells else ser_sequence_cells e cells in
+      let m_s = s_ser m in
+      let m_de = match kind, m with
+        | "Q", Ok (_ :: _ :: _ :: _ :: body) -> (match deser_listlike_cells e body with Ok l -> "ok:" ^ s_cells l | Err x -> "err:" ^ de_err_name x)
+        | _ -> "?" in
+      let agrees = m_s = iser && (kind = "V" || m_de = ideser || strip_ok iser = None) in
+      (* the property on the implementation's output: the carrier is Vec<Option<T>> /
+         Vec<MaybeUnset<T>>; element cells of the type must be accepted, written as the specified
+         encoding (lists / sets) and decoded to the bound cells (unset reads back as null) *)
+      let want = "ok:" ^ s_cells (List.map (fun c -> pad_cell e c) cells) in
+      let all_ok = wf_type e && List.for_all (cell_okb e) cells in
+      let failure =
+        if not all_ok then None
+        else match strip_ok iser with
+          | None -> if kind = "Q" then Some ("cells of the element type were refused: " ^ iser) else None
+          | Some hx ->
+            if kind = "Q" && enc_seq_cells_spec e cells <> Some (bytes_of_hexstr hx) then
+              Some ("bytes are not the wire encoding; spec=" ^ (match enc_seq_cells_spec e cells with Some b -> hb b | None -> "none"))
+            else if ideser <> want then Some ("decodes to " ^ ideser ^ " instead of " ^ want)
+            else None in
+      match failure with
+      | None -> if agrees then "ok" else "diff model=" ^ m_s ^ " " ^ m_de
+      | Some why ->
+        if agrees && kind = "V" && cells_hole cells then "viol class=vector-null-element " ^ why
+        else "viol " ^ why ^ " ; model=" ^ m_s ^ " " ^ m_de
+    end
   | ["D"; ts; hx], [ideser] ->
     let t = type_of_string ts in
     let m = s_deser_cell (deser_cell t (bytes_of_hexstr hx)) in
